@@ -26,6 +26,12 @@ Local Open Scope Z_scope.
 Lemma gen_skels_ok : skels_ok gen_skels = true.
 Proof. vm_compute. reflexivity. Qed.
 
+(* the package genum/gen as the compiler selects it: the template the skeletons were read from is the one (and only)
+   template embedded and executed, built without a function map, and the package holds no mutable package-level
+   state (memo tables, caches — seeded changes C14-12, C12-31), no init functions, no build-constrained files *)
+Lemma gen_srcfacts_ok : srcfacts_ok gen_srcfacts = true.
+Proof. vm_compute. reflexivity. Qed.
+
 (* C04: the functions the current template emits are the ones Props/C04.v speaks about *)
 Theorem tie_C04_functions : forall d o t, gen d o = Built t ->
   sem_values_sk gen_skels t = sem_values t /\ sem_stringvalues_sk gen_skels t = sem_stringvalues t
@@ -88,6 +94,7 @@ Theorem tie_C12_partial_yaml : forall d o t, wf_defn d -> gen d o = Built t ->
 Proof. exact (yaml_partial gen_skels gen_skels_ok). Qed.
 
 Print Assumptions gen_skels_ok.
+Print Assumptions gen_srcfacts_ok.
 Print Assumptions tie_C04_functions.
 Print Assumptions tie_C05_encode.
 Print Assumptions tie_C05_roundtrip_json.
